@@ -77,15 +77,37 @@ pub fn vary_modes(proj: &std::path::Path, tree: &Tree) -> usize
             let h = crate::engine::hash_of(&(rel, b));
             let mode = match h % 16
             {
-                0 | 1 => 0o444,
-                2 => 0o400,
-                3 => 0o755,
-                4 => 0o664,
-                _ => continue,
+                0 | 1 => Some(0o444),
+                2 => Some(0o400),
+                3 => Some(0o755),
+                4 => Some(0o664),
+                _ => None,
             };
-            if std::fs::set_permissions(proj.join(rel), std::fs::Permissions::from_mode(mode)).is_ok()
+            if let Some(mode) = mode
             {
-                n += 1;
+                if std::fs::set_permissions(proj.join(rel), std::fs::Permissions::from_mode(mode)).is_ok()
+                {
+                    n += 1;
+                }
+            }
+            // ... and about one in six an unusual modification time (2001 or 2040), as files restored from
+            // an archive or checked out by a tool that keeps time stamps have
+            let when: Option<i64> = match (h >> 8) % 12
+            {
+                0 => Some(978_307_200),
+                1 => Some(2_208_988_800),
+                _ => None,
+            };
+            if let Some(t) = when
+            {
+                let ts = libc::timespec { tv_sec: t, tv_nsec: 0 };
+                let times = [ts, ts];
+                if let Ok(c) = std::ffi::CString::new(proj.join(rel).to_string_lossy().as_bytes())
+                {
+                    unsafe {
+                        libc::utimensat(libc::AT_FDCWD, c.as_ptr(), times.as_ptr(), 0);
+                    }
+                }
             }
         }
     }
@@ -94,6 +116,7 @@ pub fn vary_modes(proj: &std::path::Path, tree: &Tree) -> usize
 
 pub fn run_pair(tree: &Tree) -> Pair
 {
+    let _cfg_form = crate::sandbox::ConfigFormGuard::new((crate::engine::hash_of(tree) % 3) as u8);
     let sb = Sandbox::new();
     materialise(&sb.proj(), tree);
     vary_modes(&sb.proj(), tree);
